@@ -164,6 +164,9 @@ func (fr *Frame) execGo(x *ssa.Go) {
 	var fv *FuncVal
 	if c.IsInvoke() {
 		name = "invoke:" + c.Method.Name()
+		if recv, ok := fr.val(c.Value).(*IfaceVal); ok {
+			fv = &FuncVal{Alts: []FuncAlt{{G: tTrue, Native: "#goinvoke", NatArg: []Value{recv, &methodBox{c.Method}}}}}
+		}
 	} else if f, ok := c.Value.(*ssa.Function); ok {
 		name = fnKey(f)
 		fv = &FuncVal{Alts: []FuncAlt{{G: tTrue, Fn: f}}}
@@ -185,7 +188,7 @@ func (fr *Frame) execGo(x *ssa.Go) {
 		}
 	case "task":
 		if fv != nil {
-			in.tasks = append(in.tasks, task{fr.g, fv, fr.evalArgs(c), in.site(x)})
+			in.tasks = append(in.tasks, task{g: fr.g, fv: fv, args: fr.evalArgs(c), site: in.site(x), seq: len(in.tasks)})
 			return
 		}
 	case "drop":
@@ -194,6 +197,8 @@ func (fr *Frame) execGo(x *ssa.Go) {
 	}
 	in.abort(fr.g, "unsupported", in.site(x), "go statement: "+name)
 }
+
+type methodBox struct{ M *types.Func }
 
 func (in *Interp) goMode(name string) string {
 	if in.goInline[name] {
